@@ -72,7 +72,7 @@ Example control_chars_order :
   to_xml_r (doc (el "a" [attrs [("k", VStr [ascii_of_nat 1])]; kids [VInt 3]])) = XErr EBadChar /\
   to_xml_r (doc (el "a" [kids [VStr [ascii_of_nat 1]]; (b "children", VInt 3)])) = XErr ENotList /\
   to_xml (doc (el "a" [(b "ns", VStr [ascii_of_nat 1])])) <> None /\
-  to_xml (doc (VTuple [(b "text", VStr [ascii_of_nat 1]); (b "text", S_ "fine")])) <> None.
+  to_xml (doc (el "a" [kids [VTuple [(b "text", VStr [ascii_of_nat 1]); (b "text", S_ "fine")]]])) <> None.
 Proof. vm_compute. repeat split; congruence. Qed.
 (* the reader refuses U+FFFE / U+FFFF wherever they stand *)
 Example reader_rejects_fffe :
@@ -106,14 +106,26 @@ Example ns_silently_dropped :
   out_string (doc (el "a" [nsd "xmlns" "u"; kids [S_ "t"]])) = out_string (doc (el "a" [kids [S_ "t"]])).
 Proof. vm_compute. auto. Qed.
 
-(* F7: a root that is character data, or a tuple with neither name nor text, is accepted:
-   the output has no root element *)
-Example root_not_element_refuted :
-  out_string (doc (S_ "hello")) = Some "<?xml version=""1.0"" encoding=""UTF-8""?>hello"%string /\
-  reread (doc (S_ "hello")) = None /\
-  out_string (doc (VTuple [])) = Some "<?xml version=""1.0"" encoding=""UTF-8""?>"%string /\
-  reread (doc (VTuple [(b "nmae", S_ "typo")])) = None.
-Proof. vm_compute. auto. Qed.
+(* F7 (fixed by 02a5024): the root must be an element value — a tuple with a field called name.
+   Before, a string / {text=..} / nameless tuple as root gave a document without root element. *)
+Example root_must_be_element :
+  to_xml_r (doc (S_ "hello")) = XErr ERootNotElement /\
+  to_xml_r (doc (VTuple [(b "text", S_ "hello")])) = XErr ERootNotElement /\
+  to_xml_r (doc (VTuple [])) = XErr ERootNotElement /\
+  to_xml_r (doc (VTuple [(b "nmae", S_ "typo")])) = XErr ERootNotElement /\
+  to_xml_r (doc (VInt 1)) = XErr ERootNotElement /\                      (* no longer ENodeKind *)
+  tree_of_doc (doc (S_ "hello")) = None /\
+  (* order: version value first, root-not-element before anything inside the root *)
+  to_xml_r (VTuple [(b "version", S_ "2.0"); (b "root", S_ "hello")]) = XErr EBadVersion /\
+  to_xml_r (VTuple [(b "root", S_ "hello"); (b "root", el "a" [])]) <> XErr ERootNotElement /\
+  to_xml_r (VTuple [(b "root", el "a" []); (b "root", S_ "hello")]) = XErr ERootNotElement /\
+  (* a name field of any value passes this check and fails later, as before *)
+  to_xml_r (doc (VTuple [(b "name", VEmpty)])) = XErr ENotString /\
+  to_xml_r (doc (VTuple [(b "name", VInt 3); (b "text", S_ "t")])) = XErr ENotString /\
+  (* inside the document nothing changed: nameless tuples and strings are still accepted *)
+  out_string (doc (el "a" [kids [VTuple []; S_ "t"; VTuple [(b "nmae", S_ "typo")]]])) =
+    Some ("<?xml version=""1.0"" encoding=""UTF-8""?>" ++ nl1 ++ "<a>t</a>")%string.
+Proof. vm_compute. repeat split; congruence. Qed.
 
 (* F8: names are not checked (this is why C12 assumes valid names) *)
 Example invalid_names_refuted :
@@ -168,7 +180,7 @@ Example ex_errors :
   to_xml_r (VTuple [(b "version", S_ "2.0")]) = XErr ENoRoot /\
   to_xml_r (VTuple [(b "version", S_ "2.0"); (b "root", VInt 1)]) = XErr EBadVersion /\
   to_xml_r (VTuple [(b "root", VInt 1); (b "encoding", VEmpty)]) = XErr ENotString /\
-  to_xml_r (doc (VInt 1)) = XErr ENodeKind /\
+  to_xml_r (doc (el "a" [kids [VInt 1]])) = XErr ENodeKind /\
   to_xml_r (doc (el "a" [(b "text", S_ "t"); attrs [("k", VInt 1)]])) = XErr EBothNameText /\
   to_xml_r (doc (el "a" [attrs [("k", VInt 1)]; kids [VInt 2]])) = XErr ENotString /\
   to_xml_r (doc (el "a" [kids [VInt 2]; (b "children", VInt 3)])) = XErr ENotList /\
@@ -199,3 +211,7 @@ Print Assumptions parse_doc_fuel.
 Print Assumptions xml_parse_fuel.
 Print Assumptions write_node_chars_ok.
 Print Assumptions to_xml_chars_ok.
+Print Assumptions to_xml_body_element.
+Print Assumptions doc_roundtrip_wf.
+Print Assumptions to_xml_tree_of_doc.
+Print Assumptions xml_output_roundtrip_wf.
